@@ -513,6 +513,7 @@ class Env:
         self.order = []         # python names in order of first binding
         self.used = set(["xs", "nobjs", "nvars", "objs"])
         self.assumptions = []
+        self.extra_params = {}
 
     def copy(self):
         e = Env(self.tr, self.kind, self.cls)
@@ -520,6 +521,7 @@ class Env:
         e.order = list(self.order)
         e.used = self.used          # shared: fresh names are global per function
         e.assumptions = self.assumptions
+        e.extra_params = self.extra_params
         return e
 
     def bind(self, pyname, ty):
@@ -590,8 +592,14 @@ class FnTranslator:
                 return Var(n.attr, "Z")
             c = self.tr.ctor_default(env.cls, n.attr)
             if c is not None:
-                env.assumptions.append("%s.%s fixed at its constructor default %s" % (env.cls, n.attr, c[1]))
-                return c[0]
+                # a constructor parameter stored as self.<attr>: an extra parameter of the generated function
+                # (typed like its default value: float -> R, int -> Z)
+                cn = sanitize(n.attr)
+                if cn in ("xs", "nobjs", "nvars", "objs", "cons"):
+                    raise Unsupported("attribute name self." + n.attr, n)
+                env.extra_params[n.attr] = (cn, c[0].ty)
+                env.assumptions.append("%s.%s is a parameter of the generated function (constructor default %s)" % (env.cls, n.attr, c[1]))
+                return Var(cn, c[0].ty)
             c = self.tr.ctor_super(env.cls, n.attr)
             if c is not None:
                 env.assumptions.append("%s.%s = %s (from the constructor's super().__init__ call)" % (env.cls, n.attr, ast.unparse(c)))
@@ -1441,7 +1449,7 @@ class Translator:
                 return Var("objs", "LR")
             body = ft.block(fd.body, env, fin)
             side = cond(body)
-            params = [("nobjs", "Z"), ("nvars", "Z"), ("xs", "LR")]
+            params = [("nobjs", "Z"), ("nvars", "Z")] + [env.extra_params[k_] for k_ in sorted(env.extra_params)] + [("xs", "LR")]
             self.emit_def(name, params, "LR", body, side, "class %s: evaluate" % name)
             env_c = Env(self, "method", name)
             ft_c = FnTranslator(self, env_c, selfname=a.args[0].arg, solname=a.args[1].arg)
